@@ -179,6 +179,93 @@ def form_compat(domain: str, op: str, s: int, t: int) -> bool:
     return True
 
 
+STATE_FILES = ["src/spox/_adapt.py", "src/spox/_graph.py"]
+_OK_DECORATORS = {"property", "staticmethod", "classmethod", "overload", "dataclass", "abstractmethod"}
+
+
+def _immutable_literal(v) -> bool:
+    try:
+        val = ast.literal_eval(v)
+    except Exception:  # noqa: BLE001
+        return False
+    return isinstance(val, (int, float, str, bytes, bool, type(None), tuple, frozenset))
+
+
+def adapt_state() -> tuple[list[str], list[str]]:
+    """Inventory of what could carry adapted protos (or anything else) from one build to the next in the
+    files that adapt nodes: (state that outlives a build, attribute write sites)."""
+    state: list[str] = []
+    writes: list[str] = []
+    for rel in STATE_FILES:
+        short = rel.rsplit("/", 1)[-1]
+        try:
+            mod = parse(rel)
+        except Exception as e:  # noqa: BLE001
+            state.append(f"{short}:unreadable:{type(e).__name__}")
+            continue
+        for st in mod.body:
+            tgts, val = [], None
+            if isinstance(st, ast.Assign):
+                tgts, val = st.targets, st.value
+            elif isinstance(st, ast.AnnAssign) and st.value is not None:
+                tgts, val = [st.target], st.value
+            elif isinstance(st, ast.AugAssign):
+                tgts, val = [st.target], st.value
+            for t in tgts:
+                name = ast.unparse(t)
+                if name == "__all__" or (isinstance(val, ast.Call) and ast.unparse(val.func).endswith("TypeVar")):
+                    continue
+                if name.isupper() and _immutable_literal(val):
+                    continue
+                state.append(f"{short}:module:{name}")
+            if isinstance(st, ast.Expr) and isinstance(st.value, ast.Call):
+                state.append(f"{short}:module-call:{ast.unparse(st.value.func)}")
+
+        def visit(node, fn):
+            for ch in ast.iter_child_nodes(node):
+                cur = fn
+                if isinstance(ch, (ast.FunctionDef, ast.AsyncFunctionDef)):
+                    cur = ch.name
+                    for d in ch.decorator_list:
+                        base = d.func if isinstance(d, ast.Call) else d
+                        nm = ast.unparse(base)
+                        if nm.split(".")[-1] not in _OK_DECORATORS | {"setter", "getter", "deleter"}:
+                            state.append(f"{short}:decorator:{ch.name}:{nm}")
+                    for dflt in list(ch.args.defaults) + [k for k in ch.args.kw_defaults if k is not None]:
+                        if not _immutable_literal(dflt) and not isinstance(dflt, (ast.Name, ast.Attribute)):
+                            state.append(f"{short}:mutable-default:{ch.name}")
+                elif isinstance(ch, ast.ClassDef):
+                    for st in ch.body:
+                        val = None
+                        if isinstance(st, ast.Assign):
+                            val, nm = st.value, ast.unparse(st.targets[0])
+                        elif isinstance(st, ast.AnnAssign) and st.value is not None:
+                            val, nm = st.value, ast.unparse(st.target)
+                        if val is None or _immutable_literal(val):
+                            continue
+                        if isinstance(val, ast.Call) and ast.unparse(val.func).split(".")[-1] in ("field", "OpType"):
+                            continue
+                        state.append(f"{short}:class-attribute:{ch.name}.{nm}")
+                elif isinstance(ch, ast.Global):
+                    state.append(f"{short}:global:{fn}:{','.join(ch.names)}")
+                if fn is not None or cur is not None:
+                    tg = []
+                    if isinstance(ch, ast.Assign):
+                        tg = ch.targets
+                    elif isinstance(ch, (ast.AnnAssign, ast.AugAssign)):
+                        tg = [ch.target]
+                    for t in tg:
+                        for el in (t.elts if isinstance(t, (ast.Tuple, ast.List)) else [t]):
+                            if isinstance(el, ast.Attribute):
+                                writes.append(f"{short}:{cur}:{ast.unparse(el)}")
+                    if isinstance(ch, ast.Call) and ast.unparse(ch.func) in ("setattr", "object.__setattr__"):
+                        writes.append(f"{short}:{cur}:{ast.unparse(ch.func)}")
+                visit(ch, cur)
+
+        visit(mod, None)
+    return state, writes
+
+
 def collect() -> dict:
     """Every part degrades to an empty table (the obligations and the correspondences that need it then
     fail and are reported as broken) instead of raising when the source no longer has the expected shape."""
@@ -198,6 +285,11 @@ def collect() -> dict:
     except Exception as e:  # noqa: BLE001
         runs, ranges = {}, {d: (1, 0) for d in DOMAINS}
         problems.append(f"SCHEMAS: {e}")
+    try:
+        state, writes = adapt_state()
+    except Exception as e:  # noqa: BLE001
+        state, writes = [f"inventory failed: {type(e).__name__}"], []
+        problems.append(f"adaptation state inventory: {e}")
     names = sorted({(d, n) for (d, n) in runs} | {(r["domain"], r["op"]) for r in rows})
     op_id = {k: i for i, k in enumerate(names)}
     compat = []
@@ -209,7 +301,8 @@ def collect() -> dict:
                 if t > s and form_compat(d, n, s, t):
                     compat.append((d, n, s, t))
     return {"internal_min_opset": imo, "shipped": rows, "runs": runs, "ranges": ranges,
-            "names": names, "op_id": op_id, "compat": compat, "problems": problems}
+            "names": names, "op_id": op_id, "compat": compat, "problems": problems,
+            "adapt_state": state, "adapt_attr_writes": writes}
 
 
 def generate() -> dict:
@@ -256,6 +349,12 @@ def generate() -> dict:
     for i in range(0, len(ch), 6):
         L.append("  " + ", ".join(ch[i:i + 6]) + ("," if i + 6 < len(ch) else ""))
     L.append("]\n")
+    L.append("/-- state that outlives one build in src/spox/_adapt.py and _graph.py: module-level bindings and calls, `global`, "
+             "decorators other than property/staticmethod/classmethod/overload/dataclass, mutable defaults, mutable class attributes -/")
+    L.append("def adaptState : List String := " + lean_list([lean_str(x) for x in info["adapt_state"]]))
+    L.append("/-- attribute write sites (`obj.attr = …`, setattr) inside the functions of those files: file:function:target -/")
+    L.append("def adaptAttrWrites : List String := " + lean_list([lean_str(x) for x in info["adapt_attr_writes"]]))
+    L.append("")
     L.append("end Generated.OpsetFacts\n")
     write_if_changed(GEN / "OpsetFacts.lean", "\n".join(L))
     return info
